@@ -77,6 +77,9 @@ struct StreamPeer {  // scripted (harness) stream endpoint
   VSock *conn = nullptr;            // libcoap side of the established connection (if any)
   std::vector<uint8_t> rx;          // bytes libcoap wrote to us
   bool peer_closed = false;         // libcoap closed its end
+  // what the scripted peer wrote / whether it closed before libcoap accepted the connection (the kernel keeps both for accept())
+  std::vector<uint8_t> early;
+  bool early_close = false, accepted = false;
   std::function<void(World &, StreamPeer &)> on_rx;  // called after new bytes arrived
   std::function<void(World &, StreamPeer &)> on_connect;
 };
